@@ -52,7 +52,7 @@ mut("R7-bar-quarter-vs-ticks", BAR, "if self.sequence.get_sequence_duration_rela
     "if self.sequence.get_sequence_duration_relation() > self.time_signature_numerator", ["C10"])
 mut("R6-bar-float-pad", BAR, "self.sequence.pad(int(self.time_signature_numerator * PPQN / (self.time_signature_denominator / 4)))",
     "self.sequence.pad(self.time_signature_numerator * PPQN / (self.time_signature_denominator / 4))", ["C11"])
-mut("R5-vocab-trailing-dash", TOK, '            token = token.rstrip("-")\n', "", ["C02", "C19"])
+mut("R5-vocab-trailing-dash", TOK, '            token = token.rstrip("-")\n', "", ["C02", "C01"])
 mut("R3-last-bin", UTL, "    bins[-1] = velocity_max\n", "", ["C01"])
 mut("R2-float-bins", UTL, "bins = [int(min(velocity_max, ((i + 1) * bin_size) + bin_size / 2)) for",
     "bins = [min(velocity_max, ((i + 1) * bin_size) + bin_size / 2) for", ["C01", "C02"])
@@ -188,7 +188,24 @@ mut("C02-id-counter-not-incremented", TOK, '        self.dictionary[Tokenisation
 mut("C02-tsg-range-exclusive", TOK, "for time_signature in range(self.time_signature_range[0], self.time_signature_range[1] + 1):", "for time_signature in range(self.time_signature_range[0], self.time_signature_range[1]):", ["C02"])
 mut("C02-rest-token-format", TOK, '                tokens.append(f"{TokenisationPrefixes.REST.value}_{rest_value:02}")', '                tokens.append(f"{TokenisationPrefixes.REST.value}_{rest_value}")', ["C02", "C01"])
 mut("C02-inverse-stale", TOK, "        self.inverse_dictionary = {v: k for k, v in self.dictionary.items()}", "        self.inverse_dictionary = {v: k for k, v in list(self.dictionary.items())[:-1]}", ["C02"])
-mut("C02-detok-rejects-pad", TOK, "                if main_part == TokenisationPrefixes.PAD.value:\n                    continue\n                elif main_part == TokenisationPrefixes.START.value:", "                if main_part == TokenisationPrefixes.START.value:", ["C02", "C19"])
+mut("C02-detok-rejects-pad", TOK, "                if main_part == TokenisationPrefixes.PAD.value:\n                    continue\n                elif main_part == TokenisationPrefixes.START.value:", "                if main_part == TokenisationPrefixes.START.value:", ["C02"])
+
+# C03
+mut("C03-prv-shift-zero", TOK, '        prv_shift = state_dict.get("cur_time", 0)', '        prv_shift = 0', ["C03"])
+mut("C03-cur-time-not-written-back", TOK, '        state_dict["cur_time"] = cur_time\n', '', [])  # equivalent: tokens do not depend on the absolute clock
+mut("C03-closing-rests-omitted", TOK, "        if (cur_time_bar > 0 or cur_bar_has_notes) and cur_bar_capacity_remaining > 0:\n            _apply_rest(cur_bar_capacity_remaining)", "        if (cur_time_bar > 0 or cur_bar_has_notes) and cur_bar_capacity_remaining > 0 and state_dict.get('cur_time') is None:\n            _apply_rest(cur_bar_capacity_remaining)", ["C03"])
+mut("C03-closing-without-bar-token", TOK, "        if (cur_time_bar > 0 or cur_bar_has_notes) and cur_bar_capacity_remaining > 0:\n            _apply_rest(cur_bar_capacity_remaining)", "        if (cur_time_bar > 0 or cur_bar_has_notes) and cur_bar_capacity_remaining > 0:\n            insert_bar_token = \"cur_time\" not in state_dict\n            _apply_rest(cur_bar_capacity_remaining)", ["C03"])
+mut("C03-state-signature-not-carried-detok-visible", TOK, '        cur_time = state_dict.get("cur_time", 0)\n', '        cur_time = state_dict.get("cur_time", 0) + (1 if state_dict.get("prv_value", -1) == 12 else 0)\n', ["C03"])
+
+# C19
+mut("C19-info-bar-adds-total", TOK, "            if main_part == TokenisationPrefixes.BAR.value:\n                cur_time += cur_bar_capacity_remaining", "            if main_part == TokenisationPrefixes.BAR.value:\n                cur_time += cur_bar_capacity_total", ["C19"])
+mut("C19-info-rest-capacity", TOK, "                cur_time_bar += int(token_parts[0][1])\n                cur_bar_capacity_remaining -= int(token_parts[0][1])", "                cur_time_bar += int(token_parts[0][1])", ["C19"])
+mut("C19-info-midbar-signature-applied", TOK, "            elif main_part == TokenisationPrefixes.TIME_SIGNATURE.value:\n                if cur_time_bar > 0:\n                    LOGGER.info(\n                        f\"Skipping time signature change mid-bar at time {cur_time} (bar time {cur_time_bar})\")\n                else:\n                    cur_time_signature_numerator = int(token_parts[0][1])", "            elif main_part == TokenisationPrefixes.TIME_SIGNATURE.value:\n                if False:\n                    pass\n                else:\n                    cur_time_signature_numerator = int(token_parts[0][1])", ["C19"])
+mut("C19-info-time-after-update", TOK, "            info_pos.append(cur_pos)\n            info_time.append(cur_time)\n            info_time_bar.append(cur_time_bar)\n\n            if main_part == TokenisationPrefixes.BAR.value:\n                cur_time += cur_bar_capacity_remaining\n                cur_time_bar = 0", "            info_pos.append(cur_pos)\n            info_time_bar.append(cur_time_bar)\n\n            if main_part == TokenisationPrefixes.BAR.value:\n                cur_time += cur_bar_capacity_remaining\n                cur_time_bar = 0", [])
+mut("C19-info-pitch-from-first-part", TOK, "                pitch_part = next(part for part in token_parts if part[0] == TokenisationPrefixes.PITCH.value)\n                note_pitch = int(pitch_part[1])", "                pitch_part = token_parts[0]\n                note_pitch = int(pitch_part[1])", ["C19"])
+mut("C19-cof-position-shift", MTH, "return CircleOfFifths.circle_of_fifths_order.index(Note(note_val % 12)) - 5", "return CircleOfFifths.circle_of_fifths_order.index(Note(note_val % 12)) - 6", ["C19"])
+mut("C19-detok-rest-capacity", TOK, "                    cur_time_bar += int(token_parts[i][1])\n                    cur_bar_capacity_remaining -= int(token_parts[i][1])", "                    cur_time_bar += int(token_parts[i][1])", ["C19", "C01"])
+mut("C19-info-bar-time-not-reset", TOK, "                cur_time += cur_bar_capacity_remaining\n                cur_time_bar = 0\n                cur_bar_capacity_remaining = cur_bar_capacity_total\n\n                if not flag_impute_values:", "                cur_time += cur_bar_capacity_remaining\n                cur_bar_capacity_remaining = cur_bar_capacity_total\n\n                if not flag_impute_values:", ["C19"])
 
 
 def run(cmd, env):
